@@ -87,7 +87,7 @@ fn relation(op: &Op, pre: &NTree, post: &NTree, res: &Res, sa: &str, da: &str, w
     let mut v = vec![];
     let is_move = matches!(op, Op::MoveP(..));
     let (cmode, follow) = match op {
-        Op::CopyB(_, _, m, f) => (m.clone(), *f),
+        Op::CopyB(_, _, m, f) => (m.effective(), *f),
         _ => (CopyMode::None, false),
     };
     let droot = if pre.is_real_dir(da) { join(da, base_of(sa)) } else { da.to_string() };
@@ -187,6 +187,7 @@ fn relation(op: &Op, pre: &NTree, post: &NTree, res: &Res, sa: &str, da: &str, w
         CopyMode::All(m) => (Some(m), Some(m)),
         CopyMode::Dirs(m) => (Some(m), None),
         CopyMode::Files(m) => (None, Some(m)),
+        CopyMode::Then(..) => unreachable!(),
     };
     // under follow the file or directory behind a link is copied under the TARGET's name; where that lands (and
     // what it collides with) is not stated, so a source tree containing links is only held to the other clauses
@@ -289,6 +290,15 @@ fn c09_ops(all: &[String], thorough: bool) -> Vec<Op> {
             v.push(Op::Copy(s.clone(), d.clone()));
             for m in [CopyMode::All(0o700), CopyMode::Dirs(0o711), CopyMode::Files(0o600)] {
                 v.push(Op::CopyB(s.clone(), d.clone(), m, false));
+            }
+            // option sequences on one builder: the later chmod_* call replaces the earlier one
+            let b = |m: CopyMode| Box::new(m);
+            v.push(Op::CopyB(s.clone(), d.clone(), CopyMode::Then(b(CopyMode::Dirs(0o711)), b(CopyMode::All(0o750))), false));
+            v.push(Op::CopyB(s.clone(), d.clone(), CopyMode::Then(b(CopyMode::Files(0o611)), b(CopyMode::All(0o750))), false));
+            if thorough {
+                v.push(Op::CopyB(s.clone(), d.clone(), CopyMode::Then(b(CopyMode::All(0o750)), b(CopyMode::Dirs(0o711))), false));
+                v.push(Op::CopyB(s.clone(), d.clone(), CopyMode::Then(b(CopyMode::Dirs(0o711)), b(CopyMode::Files(0o611))), false));
+                v.push(Op::CopyB(s.clone(), d.clone(), CopyMode::Then(b(CopyMode::Files(0o611)), b(CopyMode::Dirs(0o711))), true));
             }
             v.push(Op::CopyB(s.clone(), d.clone(), CopyMode::None, true));
             if thorough {
@@ -854,6 +864,16 @@ fn option_records() -> Vec<Op> {
                 }
             }
         }
+        // octal values that coincide with the nominal mode of a link (0777) or with the default modes (0755 / 0644):
+        // an "already in effect" shortcut compares against the wrong entry exactly there
+        for (all, dirs, files) in [(Some(0o777u32), None, None), (Some(0o755), None, None), (Some(0o644), None, None), (None, Some(0o777), Some(0o777))] {
+            for recurse in [None, Some(false)] {
+                for follow in [false, true] {
+                    v.push(Op::ChmodB(p.clone(), ChmodO { all, dirs, files, sym: None, recurse, follow }));
+                }
+            }
+        }
+        v.push(Op::Chmod(p.clone(), 0o777));
         for (uid, gid) in [(Some(5u32), Some(6u32)), (Some(5), None), (None, Some(6))] {
             for recurse in [None, Some(false), Some(true)] {
                 for follow in [false, true] {
